@@ -69,7 +69,7 @@ static void setup(Runner &r, const Tier &t) {
     if (t.thorough) { fs.push_back({ "Scheherazadegr.ttf", { "\xD8\xA8\xD8\xB3\xD9\x85", "\xD8\xB3\xD9\x84\xD8\xA7\xD9\x85", "\xD9\x85\xD8\xA8" } }); fs.push_back({ "Awami_test.ttf", { "\xD9\xBE\xD8\xB3\xD8\xAA", "\xD8\xBA\xD9\x84\xD9\x8A", "\xD8\xB3\xD8\xAA" } }); fs.push_back({ "charis_r_gr.ttf", { "office", "fi\xCC\x81sh", "aff" } }); }
     for (auto &f : fs) for (int n : { 2, 3 }) { if (!t.thorough && n == 3 && f.f.find("Padauk") != std::string::npos) continue; for (int dir : { 0, 1 }) { if (!t.thorough && dir == 1 && n == 3) continue;
         for (int mode = 0; mode < 3; ++mode) { if (mode && (n != 2 || dir != 0)) continue; g_cfg.push_back({ f.f, n, f.tx, dir, mode }); } } }
-    r.ncases = g_cfg.size(); r.case_alarm_s = 600; r.nshards = 8;
+    r.ncases = g_cfg.size(); r.case_alarm_s = unsigned(r.deadline_s) + 600; r.nshards = 8;
     r.describe = [](uint64_t i) { const Config &c = g_cfg[i]; JObj o; o.kv("font", c.font).kv("threads", c.nthreads).kv("dir", c.dir).kv("configuration", c.mode == 0 ? "preloadAll face + gr_make_font (claimed domain)" : c.mode == 1 ? "POSITIVE CONTROL: lazily loading face" : "POSITIVE CONTROL: font with advance callback");
         JArr tx; for (int k = 0; k < c.nthreads; ++k) tx.add(hex(c.texts[k].data(), c.texts[k].size())); o.raw("texts_utf8_hex", tx.str()); return o; };
     r.body = [](uint64_t ci, ShardCtl &ctl) {
@@ -94,6 +94,7 @@ static void setup(Runner &r, const Tier &t) {
             // explore all schedules with <= 2 preemptions at the dependent accesses (iterate if new dependent granules show up)
             struct Item { std::vector<int> prefix; }; std::vector<Item> stack; stack.push_back({ {} }); const int BOUND = 2; uint64_t cap = 20000;
             while (!stack.empty() && schedules < cap) {
+                if (deadline_hit(ctl)) break;
                 Item it = stack.back(); stack.pop_back();
                 trk_reset_logs(); trk_set_phase(TRK_EXPLORE); std::vector<trk_decision> d; run_once(c, it.prefix, d); trk_set_phase(TRK_OFF); ++schedules;
                 if (trk_sched_diverged()) { fail("replay_divergence", "a schedule prefix could not be replayed deterministically"); break; }
